@@ -103,13 +103,17 @@ func (fx *fixture) connTrouble() (map[string]int, error) {
 			counts["accepted:grpc"]++
 		}
 	}
+	if fx.baseConns == nil {
+		// first evaluation = warm-up baseline (the launcher, for example, keeps a
+		// gRPC channel to itself; the harness keeps one shared channel)
+		fx.baseConns = counts
+		return out, nil
+	}
 	for k, v := range counts {
 		switch {
-		case strings.HasPrefix(k, "outgoing:") && v > 4:
+		case strings.HasPrefix(k, "outgoing:") && v > 4 && v > fx.baseConns[k]:
 			out[k] = v
-		case k == "accepted:http" && v > 0:
-			out[k] = v
-		case k == "accepted:grpc" && v > 1:
+		case strings.HasPrefix(k, "accepted:") && v > fx.baseConns[k]:
 			out[k] = v
 		}
 	}
